@@ -7,7 +7,7 @@ import subprocess
 import tempfile
 
 from . import bf, pool, tlc
-from .common import NCPU, Report, ToolError, build_harness, build_hpbf_bin, log, seed, workdir
+from .common import NCPU, Report, ToolError, build_harness, build_hpbf_bin, log, seed, workdir, replay_witness
 
 FILES = {"file:A": ("fA", ",.+."), "file:B": ("fB", "++[>+++<-]>."), "file:U": ("fU", "+[.")}
 TEXT = {"code:a": "+++.", "code:b": ",+.", "code:c": ">,[.,]", "code:u": "+[.", "code:d": "++.[>+<]", "missing": "nope",
@@ -125,6 +125,9 @@ def c16(tier):
     rep.coverage["argv_enumerated"] = {"length_3plus_over_%d_file_tokens" % len(tiny): len(files4),
                                        "limited_runs_of_a_divergent_program": len(limited),"all_of_length_le_2_over_%d_tokens" % len(tokens_all): exhaustive2,
                                        "length_3plus_over_%d_tokens" % len(small): len(longer)}
+    rw = replay_witness()
+    if rw and "abstract_argv" in rw:
+        gen = [g for g in gen if g["argv"] == rw["abstract_argv"]][:1]
     # 2. run the real binary (both profiles)
     scratch = tempfile.mkdtemp(prefix="cli-", dir=d)
     for name, (fn, text) in FILES.items():
@@ -185,7 +188,8 @@ def c16(tier):
         v = bv[t["id"]]
         c = byid[t["id"]]
         if v["verdict"] == "rejected":
-            rep.violation({"argv": [spelling(x) for x in c["argv"]], "program": c["text"], "w": c["expected"]["bits"],
+            rep.violation({"argv": [spelling(x) for x in c["argv"]], "abstract_argv": c["argv"], "program": c["text"],
+                           "w": c["expected"]["bits"],
                            "stdout": list(c["raw"]["stdout"]), "tlc": v},
                           "hpbf %s: stdout is not the canonical output of %r at %d bit: %s" % (
                               " ".join(spelling(x) for x in c["argv"]), c["text"], c["expected"]["bits"], v["why"]))
